@@ -262,6 +262,13 @@ func propWrap(t *rapid.T) {
 	}
 	r.GET("/w", func(c *rux.Context) { trace = append(trace, "main"); c.WriteString("[main]") }, mws...)
 	h := r.WrapHTTPHandlers(wrappers...)
+	// the caller keeps its wrapper list and wraps again (a second server, a test): the list must still mean the same
+	if again := rapid.IntRange(0, 2).Draw(t, "wrapAgain"); again > 0 {
+		for i := 0; i < again; i++ {
+			h = r.WrapHTTPHandlers(wrappers...)
+		}
+		ev.Class("wrapper-list-reused")
+	}
 	rec := httptest.NewRecorder()
 	h.ServeHTTP(rec, httptest.NewRequest("GET", "/w", nil))
 	ev.Eval()
